@@ -49,7 +49,7 @@ def main():
             demo_src = open(demo).read()
             # a demo may name (assert on) its author's worktree: run a copy that names this one
             orig_wt = os.path.dirname(os.path.dirname(os.path.abspath(patch)))
-            demo_run = os.path.join(wt, '_demo_under_test.py')
+            demo_run = os.path.join(wt, '_seeddemo_run.py')
             open(demo_run, 'w').write(demo_src.replace(orig_wt, wt))
             demo = demo_run
             rc0, out0 = sh('/venv/bin/python %s' % os.path.abspath(demo), cwd=wt, env=env)
